@@ -101,6 +101,144 @@ pub fn strategy(menu: gen::ConfigMenu) -> BoxedStrategy<OrientCase> {
         .boxed()
 }
 
+// ---- life-cycle histories: drawing interleaved with orientation changes (and unrelated calls);
+// the expected frame memory is accumulated in *physical* cells across the changes
+
+#[derive(Clone, Debug, PartialEq, Eq, Hash, Serialize, Deserialize)]
+pub enum LOp {
+    Orient(Orient),
+    Draw(DrawOp),
+    /// sleep + wake, scroll set-up, tearing: must not disturb placement
+    Noise(u8),
+}
+
+#[derive(Clone, Debug, PartialEq, Eq, Hash, Serialize, Deserialize)]
+pub struct LifeCase {
+    pub cfg: Config,
+    pub ops: Vec<LOp>,
+}
+
+pub fn check_life(c: &LifeCase, info: &mut CaseInfo) -> Result<(), String> {
+    use crate::oracle::to_phys;
+    use std::collections::HashMap;
+    let mut s = Session::start(&c.cfg)?;
+    let mut expected: HashMap<(u32, u32), u32> = HashMap::new();
+    let mut orient = c.cfg.orient;
+    let mut changes = 0;
+    let mut draws_after_change = 0;
+    for (i, op) in c.ops.iter().enumerate() {
+        match op {
+            LOp::Orient(o) => {
+                s.dut.set_orientation(*o).map_err(|e| format!("step {}: set_orientation failed: {:?}", i, e))?;
+                if *o != orient {
+                    changes += 1;
+                }
+                orient = *o;
+                s.orient = orient;
+                let (lw, lh) = c.cfg.logical_size(orient);
+                if s.dut.size() != (lw, lh) || s.dut.orientation() != orient {
+                    return Err(format!("step {}: after set_orientation({:?}) the display reports {:?} / size {:?}", i, o, s.dut.orientation(), s.dut.size()));
+                }
+                s.w.borrow_mut().panel.take_trace();
+            }
+            LOp::Noise(n) => {
+                let r = match n % 4 {
+                    0 => s.dut.sleep().and_then(|_| s.dut.wake()),
+                    1 => s.dut.set_vertical_scroll_region(1, 2),
+                    2 => s.dut.set_tearing_effect(*n / 4 % 3),
+                    _ => s.dut.set_vertical_scroll_offset(*n as u16 * 3),
+                };
+                r.map_err(|e| format!("step {}: {:?}", i, e))?;
+                s.w.borrow_mut().panel.take_trace();
+            }
+            LOp::Draw(d) => {
+                // reference: the call on an empty logical image of the current orientation, mapped to physical cells
+                let (lw, lh) = c.cfg.logical_size(orient);
+                let mut img = RefImage::new(lw, lh);
+                img.apply(d, s.bits);
+                for (x, y, col) in img.points() {
+                    expected.insert(to_phys(&c.cfg, orient, x, y), col);
+                }
+                s.img = RefImage::new(lw, lh); // keep Session::call's own bookkeeping small
+                s.call(d).map_err(|e| format!("step {}: {}", i, e))?;
+                if changes > 0 {
+                    draws_after_change += 1;
+                }
+            }
+        }
+        let wb = s.w.borrow();
+        if let Some(e) = wb.panel.errors.first() {
+            return Err(format!("step {} {:?}: malformed traffic: {}", i, op, e));
+        }
+    }
+    let wb = s.w.borrow();
+    let written = wb.panel.mem.written();
+    if written.len() != expected.len() {
+        for (x, y, v) in &written {
+            if !expected.contains_key(&(*x, *y)) {
+                return Err(format!("cell ({},{}) holds {:#x} although no drawing call of the history maps to it under the orientation in force at that time", x, y, v));
+            }
+        }
+    }
+    for ((x, y), col) in &expected {
+        let got = wb.panel.mem.get(*x, *y);
+        if got != *col {
+            return Err(format!("cell ({},{}) holds {:#x}, the history (orientation in force at each call) puts {:#x} there", x, y, got, col));
+        }
+    }
+    info.nontrivial = changes > 0 && draws_after_change > 0;
+    if changes > 1 {
+        info.label("several-orientation-changes");
+    }
+    info.label(c.cfg.transport.label());
+    Ok(())
+}
+
+pub fn life_strategy(menu: gen::ConfigMenu) -> BoxedStrategy<LifeCase> {
+    gen::config(menu)
+        .prop_flat_map(|cfg| {
+            // drawing calls are generated for both logical shapes; the interpreter of the case clips anyway,
+            // so calls generated for the other shape simply act as partly out-of-bounds calls
+            let (w, h) = (cfg.w as u32, cfg.h as u32);
+            let op = prop_oneof![
+                3 => gen::orient().prop_map(LOp::Orient),
+                4 => gen::op_in(w, h, false).prop_map(LOp::Draw),
+                3 => gen::op_wild(h, w).prop_map(LOp::Draw),
+                1 => any::<u8>().prop_map(LOp::Noise),
+            ];
+            (Just(cfg), proptest::collection::vec(op, 1..=10))
+        })
+        .prop_map(|(cfg, ops)| {
+            // set_pixel / set_pixels are only defined for in-bounds coordinates: turn those generated for
+            // the other shape into DrawTarget calls
+            let mut orient = cfg.orient;
+            let ops = ops
+                .into_iter()
+                .map(|op| match op {
+                    LOp::Orient(o) => {
+                        orient = o;
+                        LOp::Orient(o)
+                    }
+                    LOp::Draw(d) => {
+                        let (lw, lh) = cfg.logical_size(orient);
+                        LOp::Draw(match d {
+                            DrawOp::SetPixel { x, y, seed } if x as u32 >= lw || y as u32 >= lh => DrawOp::DrawIter { pts: vec![(x as i32, y as i32)], seed },
+                            DrawOp::SetPixels { sx, sy, ex, ey, n, seed } if ex as u32 >= lw || ey as u32 >= lh => DrawOp::FillContiguous {
+                                rect: Rect { x: sx as i32, y: sy as i32, w: (ex - sx) as u32 + 1, h: (ey - sy) as u32 + 1 },
+                                len: StreamLen::Finite(n as u64),
+                                seed,
+                            },
+                            d => d,
+                        })
+                    }
+                    o => o,
+                })
+                .collect();
+            LifeCase { cfg, ops }
+        })
+        .boxed()
+}
+
 fn all_transitions() -> Vec<OrientCase> {
     let mut out = Vec::new();
     for a in Orient::ALL {
@@ -164,9 +302,20 @@ pub fn run(ctx: &Ctx) -> Report {
     );
     run_generated(&mut sec, ctx.seed, ctx.cases(150_000, 3_000_000), ctx.workers, || strategy(gen::ConfigMenu::all_transports()), check, sig);
     rep.sections.push(sec);
+    let mut sec = Section::new(
+        &format!("life-cycle[{}]", ctx.variant),
+        "config x history of 1..10 steps over {set_orientation, drawing call (in-bounds for one of the two logical shapes or arbitrary coordinates), sleep+wake / scroll / tearing}; the expected frame memory is accumulated in physical cells: every drawing call is placed and clipped according to the orientation in force when it was issued; every cell compared at the end; non-trivial = at least one drawing call after an effective orientation change",
+    );
+    run_generated(&mut sec, ctx.seed ^ 0x11fe, ctx.cases(100_000, 2_500_000), ctx.workers, || life_strategy(gen::ConfigMenu::all_transports()), check_life, |_, r| {
+        format!("c10:life:{}", if r.contains("although no drawing") { "stray" } else if r.contains("puts") { "placement" } else { "other" })
+    });
+    rep.sections.push(sec);
     rep
 }
 
-pub fn replay(_section: &str, case: &Value) -> Result<(), String> {
+pub fn replay(section: &str, case: &Value) -> Result<(), String> {
+    if section.starts_with("life-cycle") {
+        return check_life(&de::<LifeCase>(case)?, &mut CaseInfo::default());
+    }
     check(&de::<OrientCase>(case)?, &mut CaseInfo::default())
 }
